@@ -77,6 +77,8 @@ typedef struct vj {
 	unsigned weight;                /* number of nodes in this subtree               */
 	unsigned char dead;             /* released (lifetime is flattened, see model)   */
 	unsigned char attached;         /* member of another container                   */
+	unsigned char nul_inside;       /* JSON_STRING decoded with JSON_ALLOW_NUL whose text goes on after
+	                                   a U+0000: the C string s is then only a prefix of the value */
 	struct vj *val[VJ_MAXM];        /* object: slot k value (NULL = absent)          */
 	char key[VJ_MAXM][VJ_KLEN + 1]; /* object: slot k key text                       */
 	char s[VJ_SLEN + 1];            /* JSON_STRING                                   */
@@ -86,6 +88,8 @@ typedef struct vj {
 extern long vj_live;                 /* live JSON nodes                               */
 extern unsigned vj_parse_calls;      /* number of json_load* calls so far             */
 extern unsigned vj_dump_calls;       /* number of json_dumps calls so far             */
+extern size_t vj_parse_flags;        /* flags of the json_load* call being served     */
+extern const void *vf_untrusted_text; /* object holding parser error text (env.c)      */
 
 vj_t *vj_new(json_type t);           /* consumes an allocation index when jansson is hooked */
 void vj_attach_member(vj_t *o, unsigned k, vj_t *c);  /* harness-side construction of documents */
